@@ -54,6 +54,8 @@ structure OptSpec where
   kind : Kind
   mutex : Bool               -- member of the (only) mutually exclusive group
   dest : Option Name := none -- explicit `dest=`
+  required : Bool := false   -- `required=True`
+  dflt : Option Name := none -- `default=` of a value option (a string; the harness also uses it for objects)
   deriving DecidableEq, Repr
 
 /-- a command parser (`AkArgumentParser`) -/
